@@ -9,19 +9,38 @@ import (
 )
 
 func createLockFile(name string, perm os.FileMode) (LockFile, bool, error) {
-	acquiredExisting := false
-	if _, err := os.Stat(name); err == nil {
-		acquiredExisting = true
-	}
-	f, err := os.OpenFile(name, os.O_RDWR|os.O_CREATE, perm)
-	if err != nil {
-		return nil, false, err
-	}
-	if err := syscall.Flock(int(f.Fd()), syscall.LOCK_EX|syscall.LOCK_NB); err != nil {
-		if err == syscall.EWOULDBLOCK {
-			err = os.ErrExist
+	for {
+		acquiredExisting := false
+		if _, err := os.Stat(name); err == nil {
+			acquiredExisting = true
 		}
-		return nil, false, err
+		f, err := os.OpenFile(name, os.O_RDWR|os.O_CREATE, perm)
+		if err != nil {
+			return nil, false, err
+		}
+		if err := syscall.Flock(int(f.Fd()), syscall.LOCK_EX|syscall.LOCK_NB); err != nil {
+			_ = f.Close()
+			if err == syscall.EWOULDBLOCK {
+				err = os.ErrExist
+			}
+			return nil, false, err
+		}
+		// Unlock removes the lock file before closing it. The previous owner could have removed
+		// the file after it was opened here, in that case the lock is held on a file that is
+		// not reachable by name anymore and doesn't protect from anything.
+		// Make sure the name still refers to the locked file, otherwise start over.
+		locked, err := f.Stat()
+		if err != nil {
+			_ = f.Close()
+			return nil, false, err
+		}
+		current, err := os.Stat(name)
+		if err == nil && os.SameFile(locked, current) {
+			return &osLockFile{f, name}, acquiredExisting, nil
+		}
+		_ = f.Close()
+		if err != nil && !os.IsNotExist(err) {
+			return nil, false, err
+		}
 	}
-	return &osLockFile{f, name}, acquiredExisting, nil
 }
